@@ -436,7 +436,7 @@ def discharge(ob, axioms, timeout_ms, contract, want_models=True):
     s = mk(short)
     r = s.check()
     ob.backend = 'z3'
-    if r == z3.unknown and contract.case_split:
+    if r == z3.unknown and (contract.case_split or getattr(ob, 'split_terms', None)):
         v = _case_split(ob, axioms, timeout_ms, contract)
         if v == 'unsat':
             r = z3.unsat
@@ -482,9 +482,12 @@ def discharge(ob, axioms, timeout_ms, contract, want_models=True):
 def _case_split(ob, axioms, timeout_ms, contract):
     """prove under each combination of values of small-domain terms named by the contract"""
     import itertools
-    splits = contract.case_split(ob)
+    splits = list(getattr(ob, 'split_terms', None) or [])
+    if contract.case_split:
+        splits += list(contract.case_split(ob) or [])
     if not splits:
         return None
+    splits = splits[:3]
     terms = [t for t, _ in splits]
     for combo in itertools.product(*[vals for _, vals in splits]):
         s = z3.Solver()
